@@ -178,6 +178,14 @@ theorem size_fire {c : Cfg} (hk : c.k.reqSized = true) (hi : Inv c) (hs : SizeIn
     · next m heq =>
       exact SizeInv.mkLive rfl ⟨rfl, fun h => by simp [startupPc] at h, (hs m _ heq).running⟩
     · exact hs
+  | promote j =>
+    simp only [fire]; split
+    · next m heq =>
+      unfold doPromote
+      split
+      · exact hs
+      · exact SizeInv.mkLive rfl ⟨rfl, fun h => by simp [startupPc] at h, (hs m _ heq).running⟩
+    · exact hs
   | read =>
     simp only [fire]; split
     · next m heq => exact size_doRead hi (hi.live m _ heq) (hs m _ heq)
@@ -259,6 +267,9 @@ theorem fire_k (c : Cfg) (l : Label) : (fire c l).k = c.k := by
       · split
         · rfl
         · rfl
+    · rfl
+  · split
+    · unfold doPromote; split <;> rfl
     · rfl
   · split
     · rfl
